@@ -360,8 +360,9 @@ def check(repo, res, tier):
                 for g in gs:
                     if g[0] == 'for':
                         c = comp_of(g[1].iter)
-                        if c is None:
-                            okg = False
+                        from ..index import loop_leaves_early as _lle
+                        if c is None or _lle(g[1]):
+                            okg = False      # (a loop that stops early does not look at every task)
                         else:
                             quantified = True
                             lits |= c[1]
